@@ -55,6 +55,7 @@ let () = run_protocol [
        | Ok sts -> VT [VZ 0; VM (List.map (fun s -> s.m_varraw :: s.m_len :: s.m_nug :: (s.m_opt @ s.m_anis)) sts)]
        | Err e -> VT [VZ (int_of_nat e)])
     | _ -> failwith "arity");
+  "r2_score", (function [ys; vs] -> VF (r2_score o (gv ys) (gv vs)) | _ -> failwith "arity");
   (* fit_init: same head, then dflt | given idx val | ganis flag vals | mean_x mean_y | state *)
   "fit_init", (function
     | [fx; blo; bhi; bloc; bhic; dim; latlon; rescale; nopt; sidx; skind; sval; sillk; sillv; ak; av; isdir;
